@@ -44,7 +44,12 @@ def _case(draw, tier):
             "frozen": draw(st.sampled_from([None, None, "drift", "diffusion", "subset"])),
             # multiplicative noise started where it vanishes: g(t, y0) == 0 exactly while dg/dy != 0 (y0 = 0 and g replaced by
             # g(t, y) - g(t, 0))
-            "g_zero_at_y0": draw(st.sampled_from([False, False, False, True]))}
+            "g_zero_at_y0": draw(st.sampled_from([False, False, False, True])),
+            # logqp=True: the loss also uses the KL integrand output (the initial state is then re-built inside sdeint)
+            "logqp": draw(st.sampled_from([False, False, False, True])),
+            # the drift and diffusion also depend on a tensor that is neither y0 nor a registered parameter (a context
+            # written into the module by an encoder): with "only_external" every parameter is frozen and y0 is fixed
+            "external": draw(st.sampled_from([None, None, None, "with_params", "only_external"]))}
 
 
 def strategy(tier):
@@ -69,7 +74,12 @@ def enumerate_cases(tier):
                    "adaptive": False, "outs": [0.5], "entropy": rnd.randrange(2 ** 31 - 2),
                    "wseed": rnd.randrange(2 ** 31), "tol": 1e-2, "y0_grad": y0_grad,
                    "frozen": [None, "drift", "diffusion"][(idx + (0 if y0_grad else 1)) % 3],
-                   "g_zero_at_y0": combo["noise_type"] != "additive" and idx % 2 == 0 and y0_grad}
+                   "g_zero_at_y0": combo["noise_type"] != "additive" and idx % 2 == 0 and y0_grad,
+                   "logqp": idx % 3 == 1 and y0_grad, "external": "only_external" if (idx % 4 == 2 and not y0_grad) else None}
+
+
+class _IllConditioned(Exception):
+    pass
 
 
 def run_case(case):
@@ -105,8 +115,6 @@ def run_case(case):
     sig = {"method": combo["method"], "noise_type": spec["noise_type"], "sde_type": spec["sde_type"],
            "adaptive": case["adaptive"], "grad_free": bool(combo["options"])}
 
-    gz = bool(case.get("g_zero_at_y0")) and spec["noise_type"] != "additive"
-
     class _GZero(torch.nn.Module):
         def __init__(self, base):
             super().__init__()
@@ -118,6 +126,39 @@ def run_case(case):
 
         def g(self, t, y):
             return self.base.g(t, y) - self.base.g(t, torch.zeros_like(y))
+
+        def h(self, t, y):
+            return self.base.h(t, y)
+
+    ext = case.get("external")
+    gz = bool(case.get("g_zero_at_y0")) and spec["noise_type"] != "additive"
+    # logqp: fixed steps, regular diffusion (the integrand |g^+(f-h)|^2 is ill-conditioned where g nearly vanishes, and a
+    # finite difference of an ill-conditioned function is no oracle)
+    logqp = bool(case.get("logqp")) and spec["noise_type"] != "diagonal" and combo["method"] != "reversible_heun" \
+        and not case["adaptive"] and not gz
+    if ext == "only_external":
+        y0_grad = False
+        dir_y = dir_y * 0.0
+        frozen = [True] * len(frozen)
+        dir_p = [d * 0.0 for d in dir_p]
+    dir_c = torch.randn(2, generator=gen, dtype=torch.float64) if ext else None
+
+    class _Ext(torch.nn.Module):
+        """Drift and diffusion modulated by a context tensor that is an attribute, not a parameter."""
+
+        def __init__(self, base, ctx_):
+            super().__init__()
+            self.base, self.ctx = base, ctx_
+            self.noise_type, self.sde_type, self.spec = base.noise_type, base.sde_type, base.spec
+
+        def f(self, t, y):
+            return self.base.f(t, y) * (1.0 + 0.3 * self.ctx[0])
+
+        def g(self, t, y):
+            return self.base.g(t, y) * (1.0 + 0.2 * self.ctx[1])
+
+        def h(self, t, y):
+            return self.base.h(t, y)
 
     def loss_at(shift, need_grad, replay=None, record=None):
         nonlocal w
@@ -132,6 +173,10 @@ def run_case(case):
         params = list(sde.parameters())
         if gz:
             sde = _GZero(sde)
+        ctx_t = None
+        if ext:
+            ctx_t = (torch.tensor([0.4, -0.6], dtype=torch.float64) + shift * dir_c).requires_grad_(need_grad)
+            sde = _Ext(sde, ctx_t)
         bm = sdes.make_bm(torchsde, spec, ts[0], ts[-1], case["entropy"], levy=combo["levy"])
         real = adaptive_stepping.compute_error
 
@@ -146,23 +191,33 @@ def run_case(case):
         ctx = torch.enable_grad() if need_grad else torch.no_grad()
         with brownian_tools.patched(adaptive_stepping, "compute_error", ce), ctx:
             ys = torchsde.sdeint(sde, y0, ts, bm=bm, method=combo["method"], dt=tm["dt"],
-                                 options=dict(combo["options"]) or None, **kw)
+                                 options=dict(combo["options"]) or None, logqp=logqp, **kw)
+            lq = None
+            if logqp:
+                ys, lq = ys
             if w is None:
                 w = torch.randn(ys.shape, generator=gen, dtype=torch.float64)
             loss = (ys * w).sum()
+            if lq is not None:
+                if float(lq.abs().max()) > 50.0:
+                    raise _IllConditioned()
+                loss = loss + 0.5 * (lq * w[1:, :, 0]).sum()
         if need_grad:
             live = [p for p, fz in zip(params, frozen) if not fz]
-            inputs = ([y0] if y0_grad else []) + live
+            inputs = ([y0] if y0_grad else []) + live + ([ctx_t] if ext else [])
             if not inputs or not loss.requires_grad:
-                return loss.detach(), (None,) * (1 + len(frozen))
+                return loss.detach(), (None,) * (1 + len(frozen) + (1 if ext else 0))
             got = list(torch.autograd.grad(loss, inputs, allow_unused=True))
             gy = got.pop(0) if y0_grad else None
-            grads = (gy,) + tuple(None if fz else got.pop(0) for fz in frozen)
+            grads = (gy,) + tuple(None if fz else got.pop(0) for fz in frozen) + ((got.pop(0),) if ext else ())
             return loss.detach(), grads
         return loss, None
 
     record = []
-    base, grads = loss_at(0.0, True, record=record)
+    try:
+        base, grads = loss_at(0.0, True, record=record)
+    except _IllConditioned:
+        return Result(labels=["logqp_ill_conditioned_skipped"])
     if not bool(torch.isfinite(base)):
         return Result(labels=["non_finite_base_solution"])
     lp, _ = loss_at(+EPS, False, replay=list(record) if case["adaptive"] else None)
@@ -171,7 +226,8 @@ def run_case(case):
     an = 0.0
     gnorm = 0.0
     nz = {"f": False, "g": False}
-    for name, g_, d_ in zip(["y0"] + names, grads, [dir_y] + dir_p):
+    for name, g_, d_ in zip(["y0"] + names + (["context"] if ext else []), grads,
+                            [dir_y] + dir_p + ([dir_c] if ext else [])):
         if g_ is None:
             continue
         an += float((g_ * d_).sum())
@@ -186,7 +242,7 @@ def run_case(case):
     steps = (tm["t1"] - tm["t0"]) / tm["dt"]
     labels = [solve.combo_label(combo), "adaptive" if case["adaptive"] else "fixed",
               "y0_requires_grad" if y0_grad else "y0_fixed"] + ([f"frozen={frozen_kind}"] if frozen_kind else []) + \
-        (["g_vanishes_at_y0"] if gz else [])
+        (["g_vanishes_at_y0"] if gz else []) + (["logqp"] if logqp else []) + ([f"external_context:{ext}"] if ext else [])
     if case["adaptive"]:
         labels.append(f"trials={'>=10' if len(record) >= 10 else '<10'}")
     fail = None
@@ -194,6 +250,12 @@ def run_case(case):
         fail = Fail("backprop_vs_finite_difference",
                     f"directional derivative by backprop {an:.10g} vs central difference {fd:.10g} (rel {e:.3e}) for "
                     f"{solve.combo_label(combo)} ({'adaptive' if case['adaptive'] else 'fixed'} steps)", sig)
+    if ext == "only_external":
+        nz["f"] = nz["g"] = True
+        if grads[-1] is None:
+            fail = Fail("backprop_vs_finite_difference",
+                        f"no gradient reaches the context tensor the drift and diffusion depend on (finite difference "
+                        f"{fd:.6g}) for {solve.combo_label(combo)} with every parameter frozen and y0 fixed", sig)
     if frozen_kind == "drift":
         nz["f"] = True
     if frozen_kind == "diffusion":
